@@ -200,7 +200,7 @@ def attachFrame (c p : Frame) : Frame :=
            nprograms := if c.kind == .program then p.nprograms + 1 else p.nprograms }
 
 /-- the parent's bookkeeping when a child constructor has returned -/
-def attach (cfg : Cfg) (c p : Frame) (rest : List Frame) (reps : List Rep) : Except Raise MS :=
+def attachChild (cfg : Cfg) (c p : Frame) (rest : List Frame) (reps : List Rep) : Except Raise MS :=
   if c.kind == .program && (attachFrame c p).nprograms > 1
   then report cfg .multiplePrograms { stack := attachFrame c p :: rest, reps := reps }
   else .ok { stack := attachFrame c p :: rest, reps := reps }
@@ -233,7 +233,7 @@ def step (cfg : Cfg) (st : MS) (s : Stmt) (last : Bool) : Except Raise MS :=
         else if f.blocklevel == 0 then
           match rest with
           | [] => if Gen.fileHasCleanup then .ok st1 else .error (.notImplemented, st1.reps)
-          | p :: rest' => attach cfg f p rest' st1.reps
+          | p :: rest' => attachChild cfg f p rest' st1.reps
         else .ok st1
     | some .modproc =>
       if isInterfaceK f.kind then (if last then .error (.stopIteration, st.reps) else .ok st)
